@@ -231,6 +231,44 @@ func runC03(c *eng.Ctx) {
 		c.ErrChecked("ERR-verify", "readIndexEntry", fn, eng.Find(fn, eng.PlainCallTo("weed/storage.readIndexEntryAtOffset")), "index read errors are returned")
 	}
 
+	// (4b) the torn tail is cut at the END of the last indexed record
+	if fn := c.NeedFunc("weed/storage", "verifyNeedleIntegrity"); fn != nil {
+		for i, tr := range eng.Find(fn, eng.PlainCallTo("backend.BackendStorageFile).Truncate")) {
+			arg := eng.Arg(tr.(*ssa.Call), 0)
+			okEnd := eng.MentionsCall(arg, "needle.GetActualSize") && eng.MentionsParam(arg, "offset")
+			c.Ob("PROV-truncate", fmt.Sprintf("%s truncate-target#%d", eng.FuncName(fn), i), okEnd, tr.Pos(), "the data file is truncated to offset + GetActualSize(size) (the end of the last indexed record), never into the record")
+			bigger := eng.Cmp(func(v ssa.Value) bool { return eng.MentionsCall(v, "backend.BackendStorageFile).GetStat") }, func(v ssa.Value) bool { return v == arg }, token.GTR)
+			c.Guard("PROV-truncate", fmt.Sprintf("only-when-longer#%d", i), fn, eng.Entry(fn), []ssa.Instruction{tr}, eng.PassEdges(fn, bigger), "the truncation happens only when the file is longer than the end of the last indexed record")
+		}
+	}
+	// (4c) a data file opened after a crash starts appending at an 8-byte aligned position
+	if fn := c.NeedFunc("weed/storage/backend", "NewDiskFile"); fn != nil {
+		pad, _ := namedConst(P, "weed/storage/types", "NeedlePaddingSize")
+		stores := eng.Find(fn, eng.StoreToField("DiskFile.fileSize"))
+		if len(stores) == 0 {
+			c.Undecided("ALIGN-open", eng.FuncName(fn), fn.Pos(), "initialisation of DiskFile.fileSize not found")
+		}
+		for i, st := range stores {
+			val := st.(*ssa.Store).Val
+			aligned := false
+			for _, v := range eng.Resolve(val) {
+				if eng.Mentions(v, 6, func(x ssa.Value) bool {
+					b, ok := x.(*ssa.BinOp)
+					if !ok || b.Op != token.REM {
+						return false
+					}
+					k, isC := eng.ConstInt(b.Y)
+					return isC && k == pad
+				}) {
+					aligned = true
+				}
+			}
+			remZero := eng.Cmp(func(v ssa.Value) bool { b, ok := v.(*ssa.BinOp); return ok && b.Op == token.REM }, func(v ssa.Value) bool { k, ok := eng.ConstInt(v); return ok && k == 0 }, token.EQL)
+			c.Ob("ALIGN-open", fmt.Sprintf("%s fileSize-init#%d", eng.FuncName(fn), i), aligned && len(eng.PassEdges(fn, remZero)) > 0, st.Pos(),
+				"the append position of a freshly opened data file is rounded up to NeedlePaddingSize (a torn, unaligned tail must not shift later records off the 8-byte grid that index offsets assume)")
+		}
+	}
+
 	// (5) CheckAndFixVolumeDataIntegrity
 	if fn := c.NeedFunc("weed/storage", "CheckAndFixVolumeDataIntegrity"); fn != nil {
 		entry, ok := namedConst(P, "weed/storage/types", "NeedleMapEntrySize")
